@@ -17,6 +17,7 @@ Fixpoint args_ok (o : op) : Prop :=
   | OSubstringAfter a | OSubstringUntil _ a | OWithInsertS _ a _ | OArgS a | OWithSuffixS a | OWithPrefixS a
   | OWithoutSuffixS a _ | OWithoutPrefixS a _ | OPlusS a | OWithoutSuffixSI a _ | OWithoutPrefixSI a _ => sarg_ok a
   | OReplaceS a b _ _ | OWithReplS a b _ _ => sarg_ok a /\ sarg_ok b
+  | OWithWord _ a sep => sarg_ok a /\ nulfree sep
   | OAppendCh ch | OSetAt _ ch => ch <> 0
   | OReplaceCh _ b _ _ | OWithReplCh _ b _ _ => b <> 0
   | OSwap _ l => nulfree l /\ lenN l < LIM
@@ -35,6 +36,7 @@ Fixpoint need (l : list N) (o : op) : N :=
   | OAppendCh _ | OWithSuffixCh _ | OWithPrefixCh _ => n + 2
   | OShiftInt z => n + lenN (dec_of_Z z) + 1
   | OShiftBool _ => n + 6
+  | OWithWord _ a sep => n + lenN (lit_of l a) + 2 * lenN sep + 1
   | OPrealloc k => k + 1
   | OShrink extra => n + 1 + extra
   | OReplaceS _ wm _ _ | OWithReplS _ wm _ _ => n + lenN (lit_of l wm) * n + 1
@@ -191,6 +193,7 @@ Local Notation without_suffix_nc_loop_spec := (StrProd.without_suffix_nc_loop_sp
 Local Notation without_prefix_nc_loop_spec := (StrProd.without_prefix_nc_loop_spec M TH PG OV jk M_pos TH_ge PG_pos PG_le OV_lt M_le).
 Local Notation without_prefix_ch_nc_spec := (StrProd.without_prefix_ch_nc_spec M TH PG OV jk M_pos TH_ge PG_pos PG_le OV_lt M_le).
 Local Notation strip_ch_prefix_nc_suffix := (StrProd.strip_ch_prefix_nc_suffix M TH PG OV jk M_pos TH_ge PG_pos PG_le OV_lt M_le).
+Local Notation with_word_spec := (StrProd.with_word_spec M TH PG OV jk M_pos TH_ge PG_pos PG_le OV_lt M_le).
 Local Notation subj_ok := (StrProd.subj_ok M).
 Local Notation step1 := (step1 M TH PG OV jk true).
 Local Notation mutate := (mutate M TH PG OV jk true).
@@ -476,6 +479,14 @@ Proof.
     + eexists; splits; [reflexivity| |exact Ic]. f_equal. rewrite Ac. cbn [strip_suffix_nc_fuel]. rewrite Es. now rewrite andb_false_r.
   - (* WithoutPrefixIgnoreCase(char) *)
     destruct (without_prefix_ch_nc_spec s ch max Sb) as (I' & A'). eexists; splits; [reflexivity|f_equal; exact A'|exact I'].
+  - (* WithInsertedWord *)
+    destruct Ao as [Aa As].
+    destruct (with_word_spec s idx (osrc s (arg_src a)) sep Sb F (osrc_src_ok s a I)) as (I' & A').
+    + rewrite osrc_bytes. now apply lit_nulfree.
+    + exact As.
+    + rewrite (osrc_len s a I). now apply lit_len.
+    + rewrite (osrc_len s a I). lia.
+    + eexists; splits; [reflexivity| |exact I']. f_equal. now rewrite A', osrc_bytes.
 Qed.
 
 (* ---------------------------------------------------------------- one step *)
